@@ -24,7 +24,7 @@ PLAN = {
     "thorough": {"budget_s": 600.0, "chunk": 10, "shrink_s": 90.0},
 }
 LAWS = ("reorder-zero", "reorder-free", "symmetry", "nonneg", "triangle", "add-diagonal", "translate",
-        "rescale", "vs-empty", "bott<=wass")
+        "rescale", "vs-empty", "bott<=wass", "warnings-as-errors")
 RULE = ("case = triple of finite generated diagrams X,Y,Z (0..60 points quick, up to 300 thorough) + a permutation, "
         "diagonal points to add, a diagonal shift and a scale factor; the laws " + ", ".join(LAWS) + " are checked for "
         "bottleneck (each evaluation under its own scheduler-owned set order) and for Wasserstein (fault-free "
@@ -317,6 +317,28 @@ def run_case(case, sched):
             for a, where in ((ev.wass(Y, []), "d(Y,{})"), (ev.wass([], Y), "d({},Y)")):
                 if not abs(a - want_w) <= 1e-12 * max(1, len(Y)) * _scale(Y) + 1e-300:
                     fail(law, "wasserstein", "wrong", "%s=%r but total persistence/sqrt2=%r" % (where, a, want_w))
+        elif law == "warnings-as-errors":
+            # fault injection: other code (python -W error, a test runner) turned warnings into exceptions.  A call may
+            # then fail with that warning; if it returns, it must return what it returns otherwise - never another value
+            if cfg.get("set_order", "sim") != "sim":
+                continue
+            import warnings as _w
+            bott_, wass_ = mc.sut()
+            for P, Q in ((X, Y), (Z, Y)):
+                for nm, f_plain, f_raw, tol in (("bottleneck", ev.bott, bott_, 4 * bt), ("wasserstein", ev.wass, wass_, wt(P, Q))):
+                    base = f_plain(P, Q)
+                    try:
+                        with simset.order_scope(sched, cfg.get("mode", "uniform")):
+                            with _w.catch_warnings():
+                                _w.simplefilter("error")
+                                v = float(f_raw(ev.arr(P), ev.arr(Q)))
+                    except Warning:
+                        sched.count("calls_failed_with_the_warning")
+                        continue
+                    except Exception as e:
+                        fail(law, nm, "other-exception", "with warnings turned into errors %s raised %s: %s" % (nm, type(e).__name__, str(e)[:200]))
+                    if not abs(v - base) <= tol:
+                        fail(law, nm, "other-value", "with warnings turned into errors %s returned %r, otherwise %r" % (nm, v, base))
         elif law == "bott<=wass":
             a, b = ev.bott(X, Z), ev.wass(X, Z)
             if not a <= b + wt(X, Z):
